@@ -50,3 +50,33 @@ def loader_conformance(chk, d, extra_files=()):
     chk.set("loader_files_from_BinFormat", len(files) - len(extra_files))
     chk.set("loader_files_conforming", ok)
     return ok
+
+
+def tb_loader_conformance(chk, tb, d, seeds=(1, 2, 3)):
+    """every file of BinFormat!Files through hextb.cpp's own load() under several power-on states; the words covering the file's payload
+    must be the file's bytes, absent bytes zero (BinFormat!LoadedWhole)"""
+    import rtllib
+    files = [f for f in gen_files(d) if len(f) >= 4]
+    fdir = os.path.join(d, "tbfiles"); os.makedirs(fdir, exist_ok=True)
+    cases = []
+    for i, f in enumerate(files):
+        path = os.path.join(fdir, "f%d.bin" % i)
+        open(path, "wb").write(bytes(f))
+        for sd in seeds:
+            cases.append({"id": "f%d" % i, "bin": path, "input": "", "seed": sd, "plant": 0, "loadonly": 1})
+    res = rtllib.tb_run(tb, cases, d, tag="tbload")
+    recs = [{"id": "%s/seed%d" % (c['id'], c['seed']), "kind": "tbload", "file": files[int(c['id'][1:])], "words": r['words']} for c, r in zip(cases, res)]
+    can = json.loads(json.dumps(next(r for r in recs if r['words']))); can['id'] = 'canary'; can['words'][-1] ^= 0x1000000
+    verd = validate(recs + [can], d, "tbloadv")
+    if verd[-1]['v'] == "":
+        raise vlib.MachineryError("hextb loader canary accepted: the binding is not live")
+    ok = 0
+    for rec, v in zip(recs, verd[:-1]):
+        if v['v'] == "":
+            ok += 1
+        elif v['v'] != "skip":
+            chk.violation("tbloader:" + ("partial-word" if (len(rec['file']) - 4) % 4 else "whole-words"),
+                          "after hextb loaded a %d-byte file (%s): %s" % (len(rec['file']), rec['id'], v['v']),
+                          {"file.json": json.dumps(rec['file']), "words.json": json.dumps(rec['words'])})
+    chk.set("hextb_loader_runs_conforming_to_BinFormat", ok); chk.set("hextb_loader_runs", len(recs))
+    return ok
